@@ -12,7 +12,7 @@ From Coq Require Import String.
 From Emmet Require Import lib.Base lib.StrLit model.MarkupTokenizer model.MarkupParser model.MarkupConvert
      model.MarkupResolve model.OutStream model.FormatHtml proofs.AttrProofs proofs.AttrParseProofs
      proofs.ParserSpine proofs.ParserGroups proofs.TextSpec proofs.AttrText proofs.AttrTextParse
-     proofs.AttrTextConvert proofs.AttrTextFlat proofs.TextProofs model.MarkupExpand proofs.AttrTextExpand proofs.AttrTextStmt.
+     proofs.AttrTextConvert proofs.AttrTextFlat proofs.TextProofs model.MarkupExpand proofs.AttrTextExpand proofs.AttrTextStmt proofs.AttrTextRender.
 
 (* merging: for ALL attribute lists the code's loop (dictionary lookup + in-place update) computes
    [merge_spec]: every name once at its first position; class values joined by one space in written
@@ -253,6 +253,32 @@ Theorem C03_statement_markup_parse :
 Proof. exact statement_markup_parse. Qed.
 Print Assumptions C03_statement_markup_parse.
 
+(* ... the preorder list pins the forest down: two forests with the same list are equal *)
+Theorem C03_preorder_determines_forest :
+  forall (l1 l2 : list anode) (d : nat), apreNL d l1 = apreNL d l2 -> l1 = l2.
+Proof. exact apreNL_inj. Qed.
+Print Assumptions C03_preorder_determines_forest.
+
+(* (6) ... and expand() of the whole statement with formatting off (output.format = false; with it on, the
+   same tags are laid out on indented lines: C12): the output is the forest of (5) written as nested
+   tags ([render_node]: `<name` + the attributes through [attr_out_spec] + `>` + the element's text +
+   its children in order + `</name>`), every element once, in document order.  [elem_out_ok]: no leaf
+   formatting forced for the name, attribute values and text free of line breaks, text not starting
+   with a block-level tag. *)
+Theorem C03_statement_expand :
+  forall (x : xconfig) (xs : list (selem * sop)),
+    let m := xc_m x in
+    let c := xc_o x in
+    Forall (fun p => selem_ok (fst p) /\ jsx_ok (mc_jsx m) (fst p) /\ plain_name m (fst p)) xs ->
+    mc_text m = WNone -> html_family (mc_syntax m) ->
+    oc_format c = false -> oc_comment_enabled c = false -> oc_format_leaf c = false ->
+    Forall (fun p => elem_out_ok m c (fst p)) xs ->
+    exists forest,
+      expand_markup_str x (stmt_text xs) = Ok (render_forest c forest) /\
+      apreNL 0 forest = map (fun p => (fst p, resolved_node (mc_reverse_attrs m) (snd p))) (edenote 0 xs).
+Proof. exact statement_expand. Qed.
+Print Assumptions C03_statement_expand.
+
 (* non-vacuity of (4): a.x[b=f(1) c. !d class='y z']#i{5 > 3 \{ok\}}  expands to
    <a class="x y z" b="f(1)" c="c" id="i">5 > 3 {ok}</a> *)
 Example C03_expand_nonvacuous :
@@ -345,4 +371,21 @@ Proof.
   repeat split; try discriminate; try reflexivity; try (intros _; discriminate).
   - exists false. repeat split.
   - intro H. exfalso. apply H. reflexivity.
+Qed.
+
+(* non-vacuity of (5), (6): a.x>b[c=1]{t>u}+d#e with formatting off (here `a` is not a snippet) *)
+Example C03_statement_expand_nonvacuous :
+  let x := mkX (mkMConfig (S "html") [] [] WNone None None false None [] false false)
+               (mkOconfig (mkOfmt [] [] []) [] [] (S "double") false false [] [] 0 false [] (S "html") [] false [] [] []
+                          false None None) in
+  let xs := [(mkSElem (S "a") [PClass (S "x")] None, SChild);
+             (mkSElem (S "b") [PSet [mkSAttr false (S "c") false (SUnq (S "1"))]] (Some (S "t>u")), SSibling);
+             (mkSElem (S "d") [PId (S "e")] None, SSibling)] in
+  Forall (fun p => selem_ok (fst p) /\ jsx_ok false (fst p) /\ plain_name (xc_m x) (fst p)) xs /\
+  Forall (fun p => elem_out_ok (xc_m x) (xc_o x) (fst p)) xs /\
+  expand_markup_str x (stmt_text xs) = Ok (S "<a class=""x""><b c=""1"">t>u</b><d id=""e""></d></a>").
+Proof.
+  cbv zeta. split; [|split; [|vm_compute; reflexivity]].
+  - repeat constructor; try discriminate.
+  - repeat constructor.
 Qed.
